@@ -3,8 +3,8 @@
    Vocabulary (Model/FastlogOps.v): [wf l] the buffer has 2048 bytes; [fits l t] index + |t| <= 2048;
    [appended l t r] the call r returned a line whose text is the text of l followed by exactly t;
    [fld name t] = " name=" ++ t.  Reference renderings: Spec/TextSpec.v. *)
-From PV Require Import Base.Prelude Model.Fastlog Model.FastlogOps Model.FastlogViews Model.FastlogAsFound Spec.TextSpec Spec.TextSpecParse
-  Proofs.Fastlog Proofs.FastlogIP6 Proofs.FastlogLine Proofs.FastlogInside Proofs.FastlogMsg Proofs.FastlogViews Proofs.FastlogDenote Proofs.FastlogNoFit Proofs.FastlogAsFound.
+From PV Require Import Base.Prelude Model.Fastlog Model.FastlogOps Model.FastlogPool Model.FastlogViews Model.FastlogAsFound Spec.TextSpec Spec.TextSpecParse
+  Proofs.Fastlog Proofs.FastlogIP6 Proofs.FastlogLine Proofs.FastlogInside Proofs.FastlogMsg Proofs.FastlogPool Proofs.FastlogViews Proofs.FastlogDenote Proofs.FastlogNoFit Proofs.FastlogAsFound.
 Open Scope N_scope.
 
 (* Uint8 / Uint16 / Uint32 print strconv's decimal text *)
@@ -311,6 +311,32 @@ Example C20_nofit_ip_truncates :
              to_string l' = Ok (text_of l').
 Proof. exact nofit_ip_truncates. Qed.
 Print Assumptions C20_nofit_ip_truncates.
+
+(* ---- the writer and the pool as state (Model/FastlogPool.v): histories of Msg / appender / Write / ToString calls
+   on several lines alive at once; the pool is a multiset of free buffers, Msg takes one (or allocates), Write and
+   ToString return theirs exactly once whatever the writer answered.  [hist_ok]: handles are used as handles
+   (Msg on an unused one, everything else on a live one). *)
+
+(* in every history no buffer is owned by two live lines and no live line's buffer is in the pool *)
+Theorem C20_line_exclusive : forall hs, hist_ok pinit hs = true ->
+  let s := prun hs in
+  NoDup (ids (live s)) /\ (forall e, In e (live s) -> ~ In (lv_id e) (free s)).
+Proof. exact line_exclusive. Qed.
+Print Assumptions C20_line_exclusive.
+
+(* hence every live line is its own message followed by its own fields, whatever the other lines and the writers
+   did: C20_msg and C20_line (faithful when it fits) apply to each interleaved line *)
+Theorem C20_line_own : forall hs, hist_ok pinit hs = true ->
+  forall e, In e (live (prun hs)) ->
+  exists b0, List.length b0 = BUFSZ /\
+    heap (prun hs) (lv_id e) = (l0 <- msg_line b0 (lv_m e) (lv_s e) ;; run_ops l0 (lv_ops e))%res.
+Proof. exact line_own. Qed.
+Print Assumptions C20_line_own.
+
+Example C20_line_exclusive_nonvacuous :
+  hist_ok pinit ex_hist = true /\ List.length (live (prun ex_hist)) = 2%nat /\ List.length (free (prun ex_hist)) = 1%nat.
+Proof. exact line_exclusive_nonvacuous. Qed.
+Print Assumptions C20_line_exclusive_nonvacuous.
 
 (* ---- the six witnesses on which the code as found failed (Properties/C20_asfound.v), on the repaired code *)
 
